@@ -33,8 +33,9 @@ _tmp = {"dir": None}
 
 def setup_symbolic():
     shims.install([lrc], ["float"])
-    from props import handoff
+    from props import handoff, c12
     handoff.setup_symbolic()
+    c12.setup_symbolic()
 
 
 def tmpdir():
@@ -56,6 +57,49 @@ def fresh_prefix(name):
 class Obj:
     def __init__(self, **kw):
         self.__dict__.update(kw)
+
+
+def h_aggregator(g):
+    """the counters as the real ReadAssignmentAggregator builds them for an experiment with read groups: for every combination of
+    --gene_quantification / --transcript_quantification and every assignment class of one read, the per-group gene and transcript
+    counts sum to the ungrouped ones"""
+    import src.dataset_processor as dp
+    from src.input_data_storage import SampleData
+    from props.c02 import STRATEGIES
+    g.batch = True
+    shims.CURRENT["g"] = g if g.symbolic else None
+    gs, ts = STRATEGIES[g.choice("gene_quantification", len(STRATEGIES))], STRATEGIES[g.choice("transcript_quantification", len(STRATEGIES))]
+    d = fresh_prefix("agg")
+    os.makedirs(d, exist_ok=True)
+    os.makedirs(os.path.join(d, "aux"), exist_ok=True)
+    sample = SampleData([["x.bam"]], "smp", d, {}, None)
+    args = Obj(_cmd_line="x", _version="v", counts_format="both", genedb="annotation.db", sqanti_output=False, no_model_construction=True,
+               count_exons=False, read_group="tag:RG", gene_quantification=gs, transcript_quantification=ts, check_canonical=False, cage=None,
+               print_additional_info=False, gzipped=False)
+    groups = ["gA", "gB", "NA"]
+    agg = call(g, dp.ReadAssignmentAggregator, args, sample, groups)
+    tt = SymEnum(g, RT, "type", allowed=[m for m in RT if m != RT.suspended])
+    tg = SymEnum(g, RT, "gene_type", allowed=[m for m in RT if m != RT.suspended])
+    g.add(OR(tg == tt, AND(tt == RT.ambiguous, tg == RT.unique), AND(tt == RT.inconsistent_ambiguous, tg == RT.inconsistent)))
+    k = 1 + g.choice("n_isoforms", 2)
+    g.assume(IMPLIES(k != 1, NOT(tt.is_unique())))
+    one_gene = bool(g.bool("isoforms_of_one_gene"))
+    g.assume(IMPLIES(k != 1 and not one_gene, NOT(tg.is_unique())))
+    matches = [Obj(assigned_gene="F1" if (one_gene or i == 0) else "F2", assigned_transcript=FEATS[i]) for i in range(k)]
+    rgroup = groups[g.choice("read_group", len(groups))]
+    ra = Obj(read_id="r", assignment_type=tt, gene_assignment_type=tg, read_group=rgroup, isoform_matches=matches,
+             gene_info=Obj(all_isoforms_introns={f: [(10, 20)] for f in FEATS}), corrected_exons=[(1, 9), (21, 30)])
+    for c in (agg.gene_counter, agg.gene_grouped_counter, agg.transcript_counter, agg.transcript_grouped_counter):
+        call(g, c.add_read_info, ra)
+    det = {"gene_quantification": gs, "transcript_quantification": ts}
+    for what, cu, cg in (("gene", agg.gene_counter, agg.gene_grouped_counter), ("transcript", agg.transcript_counter, agg.transcript_grouped_counter)):
+        for f in FEATS:
+            tot = SUM([cg.feature_counter[f].get(cg.group_numeric_ids[name]) for name in groups])
+            g.check(tot == cu.feature_counter[f].get(0), "per-group %s counts of an experiment sum to its ungrouped %s count" % (what, what), detail=dict(det, feature=f))
+    for pr in (agg.corrected_bed_printer, getattr(agg, "basic_printer", None)):
+        out_file = getattr(pr, "output_file", None)
+        if out_file is not None:
+            out_file.close()
 
 
 def h_grouped(groups, fmt):
@@ -313,10 +357,19 @@ def h_split_table(n_al):
 
 def instances(tier, seed):
     q = tier == "quick"
+    AGG = Instance("aggregator_counters", h_aggregator, ["src.dataset_processor:ReadAssignmentAggregator.__init__", "src.long_read_counter:create_gene_counter",
+                                                       "src.long_read_counter:create_transcript_counter", "src.long_read_counter:AssignedFeatureCounter.add_read_info"],
+                   "5 x 5 quantification strategies, one read of any assignment class with 1-2 isoforms in any of 3 groups", weight=200, budget_s=900)
     L = "src.long_read_counter:"
     F = [L + "AssignedFeatureCounter.__init__", L + "AssignedFeatureCounter.add_read_info", L + "AssignedFeatureCounter.dump",
          L + "AssignedFeatureCounter.dump_grouped", L + "AssignedFeatureCounter.format_header"]
-    out = []
+    out = [AGG]
+    # --read_group file_name: the merger's index must identify the file a record came from (shared with C12)
+    from props import c12
+    for n_, k_ in ([(2, 2), (3, 3)] if q else [(2, 2), (3, 2), (3, 3), (4, 3)]):
+        out.append(Instance("merger_file_index[records=%d,files=%d]" % (n_, k_), c12.h_merger(n_, k_),
+                            ["src.alignment_processor:BAMOnlineMerger._set", "src.alignment_processor:BAMOnlineMerger.get"],
+                            "%d records spread over %d files by the solver (files may be empty)" % (n_, k_), weight=10 * n_ * k_))
     group_sets = [["NA", "A"], ["b", "a", "NA"]] if q else [["NA", "A"], ["NA", "a"], ["b", "a", "NA"], ["10", "NA", "b", "B"]]
     for gs in group_sets:
         for fmt in ("both",) if q else ("both", "matrix", "linear"):
